@@ -94,6 +94,23 @@ VARIANTS = {
                                        {'file_name': 'page_' + 'y' * 130 + '.pt', 'file_sub': 'site_b', 'body': '<p>site B ${v}</p>'}),
     'long-file-name-option': ({'file_name': 'form_' + 'z' * 160 + '.pt', 'body': SRC}, {'file_name': 'form_' + 'z' * 160 + '.pt', 'body': SRC, 'cfg': {'trim_attribute_space': True}}),
     'file-name-edited': ({'file_name': 'short.pt', 'body': '<p>version ONE ${v}</p>'}, {'file_name': 'short.pt', 'body': '<p>version TWO ${v}</p>'}),
+    # debug mode writes the template's file name into the first line of the stored module: whatever that name looks like,
+    # the module is read back as the UTF-8 text it was written as
+    'debug-file-name-looking-like-a-coding-declaration': (
+        {'body': '<p>\xe9\u65e5\u672c ${v}</p>', 'cfg': {'debug': True, 'filename': '/x/charset-encoding=latin-1/page.pt'}, 'expect': '<p>\xe9\u65e5\u672c 1</p>'},
+        {'body': '<p>\xe9\u65e5\u672c ${v}</p>', 'cfg': {'debug': True, 'filename': '/x/page.pt?coding:cp1251'}, 'expect': '<p>\xe9\u65e5\u672c 1</p>'}),
+    # a long-lived template object that is re-configured after its first compilation and then given a new document: what it
+    # stores is what a fresh template of the new configuration and document stores
+    'long-lived-object-reconfigured-then-rewritten': (
+        {'body': '<p tal:content="v">x</p>', 'then': {'set': {'default_expression': 'string'}, 'write': '<p class="note" tal:content="title">x</p>'},
+         'expect': '<p class="note">title</p>'},
+        {'body': '<p class="note" tal:content="title">x</p>', 'cfg': {'default_expression': 'string'}, 'expect': '<p class="note">title</p>'}),
+    'long-lived-object-option-switched-then-rewritten': (
+        {'body': '<input data-tal-content="1" checked="${v}"/>', 'then': {'set': {'enable_data_attributes': True, 'boolean_attributes': ['checked']},
+                                                                            'write': '<input data-tal-content="2" checked="${v}" />'},
+         'expect': '<input checked="checked">2</input>'},
+        {'body': '<input data-tal-content="2" checked="${v}" />', 'cfg': {'enable_data_attributes': True, 'boolean_attributes': ['checked']},
+         'expect': '<input checked="checked">2</input>'}),
     'body-trailing-newline': ({'body': '<p>x ${v}</p>\n'}, {'body': '<p>x ${v}</p>'}),
     'extra_builtins': ({'body': '<p>${zz|0}</p>'}, {'body': '<p>${zz|0}</p>', 'cfg': {'extra_builtins': {'zz': 1}}}),
     'extra_builtins-names-concatenate': ({'body': '<p>${ab|"-"};${c|"-"};${a|"-"};${bc|"-"}</p>', 'cfg': {'extra_builtins': {'ab': 'AB', 'c': 'C'}}},
@@ -179,7 +196,11 @@ def layer_soundness(ctx, tmp):
             ctx.mark_inconclusive('no-cache reference run failed for %s' % name)
             continue
         ref_a, ref_b = ref_a[0], ref_b[0]
-        trivial = ref_a == ref_b
+        for j, r in ((a, ref_a), (b, ref_b)):
+            if 'expect' in j and r != j['expect']:
+                ctx.violation('stored-module-read-back-differently:' + name, 'configuration %r renders %r, expected %r' % (j['cfg'], r, j['expect']),
+                              {'kind': 'pair', 'option': name})
+        trivial = ref_a == ref_b and 'expect' not in a
         ctx.cover('option-changes-nocache-output', '%s:%s' % (name, not trivial))
         for order in ('AB', 'BA'):
             for split in ('same-process', 'two-processes'):
